@@ -137,7 +137,7 @@ let () =
           let c = faithful_cfg in
           print_string ("CFG " ^ String.concat " " (List.map sbool
             [c.ae_ti; c.de_ti; c.ae_ni; c.de_ni; c.ae_sb; c.de_sb; c.ae_tb; c.de_tb; c.ae_ns; cfg_docs_escaped c; c.lk_up; url_links_service;
-             all_dsdl_text_sinks_escaped; table_balanced html_skeletons; sinks_classified_safe]) ^ "\n");
+             all_dsdl_text_sinks_escaped; table_balanced html_skeletons; sinks_classified_safe; c.lk_us; ns_ids_dashed]) ^ "\n");
           List.iter (fun n -> print_string (Printf.sprintf "T %s %s\n" (show n) (sbool (autoescape_selected n)))) html_template_names;
           print_string "END\n"
         | ["TAG"; ia; es; full; major; minor; root; fullns; haspar] ->
